@@ -216,17 +216,15 @@ PROPS["C17"] = dict(
         H("c17_open_step_n6_tl100", tier="thorough", timeout=2700, mem_gb=26, bounds="starts, n=6, text_len 100"),
         H("c17_open_step_n4_tl100_eof", tier="quick", timeout=1200, mem_gb=26, bounds="starts, n=4, text_len 100, positions <= 100"),
         H("c17_open_step_n4_tl64_eof", tier="quick", timeout=1200, mem_gb=26, bounds="starts, n=4, text_len 64, positions <= 64"),
-        H("c17_end_step_n4_tl100", tier="thorough", timeout=1200, mem_gb=26, bounds="ends, n=4, text_len 100"),
-        H("c17_end_step_n5_tl128", tier="thorough", timeout=1800, mem_gb=26, bounds="ends, n=5, text_len 128"),
-        H("c17_end_step_n4_tl64", tier="thorough", timeout=1200, mem_gb=26, bounds="ends, n=4, text_len 64"),
-        H("c17_end_step_n4_tl63", tier="thorough", timeout=1200, mem_gb=26, bounds="ends, n=4, text_len 63"),
+        H("c17_end_step_n4_tl100", tier="thorough", timeout=2700, mem_gb=26, bounds="ends, n=4, text_len 100"),
+        H("c17_end_step_n5_tl128", tier="thorough", timeout=2700, mem_gb=26, bounds="ends, n=5, text_len 128"),
+        H("c17_end_step_n4_tl64", tier="thorough", timeout=2700, mem_gb=26, bounds="ends, n=4, text_len 64"),
+        H("c17_end_step_n4_tl63", tier="thorough", timeout=2700, mem_gb=26, bounds="ends, n=4, text_len 63"),
         H("c17_open_init_inv_n4", tier="quick", timeout=900, mem_gb=20, bounds="constructor state satisfies the invariant; compact iff monotone"),
         H("c17_end_init_inv_n4", tier="quick", timeout=900, mem_gb=20, bounds="constructor state satisfies the invariant (ends)"),
-        H("c17_ib_select_n4_tl100", tier="thorough", timeout=2700, mem_gb=30, bounds="real sampled select == model, n=4, every k"),
-        H("c17_ib_select_n5_tl128", tier="thorough", timeout=2700, mem_gb=30, bounds="real sampled select == model, n=5"),
+        H("c17_end1_n4_tl100", tier="quick", timeout=900, mem_gb=16, bounds="ends n=4: every single lookup from the fresh state"),
+        H("c17_end2_n4_tl100", tier="thorough", timeout=2700, mem_gb=24, bounds="ends n=4: every 2-lookup history from the fresh state"),
         H("c17_dense_fallback_n4", tier="quick", timeout=900, mem_gb=20, bounds="non-monotone n=4"),
-        H("c17_open3_n4_tl100", tier="thorough", timeout=2700, unwindset=EFU, bounds="3-lookup histories from the fresh state, n=4"),
-        H("c17_end3_n4_tl100", tier="thorough", timeout=2700, unwindset=EFU, bounds="3-lookup histories from the fresh state, ends n=4"),
         H("c17_witness_must_fail", tier="thorough", kind="witness", timeout=600, unwindset=EFU),
     ],
 )
@@ -613,6 +611,8 @@ PROPS["C16"] = dict(
         H("c16_spaces_n40_s5_avx2", fs="scalar-yaml", timeout=1800, unwindset=U16, tier="quick", bounds="scalar-yaml build: pure scalar kernel, same harness"),
         H("c16_block_end_n20_s0_any", fs="scalar-yaml", timeout=1800, unwindset=U16, tier="quick", bounds="scalar-yaml build: pure scalar kernel, same harness"),
         H("c16_anchor_n40_s1_avx2", fs="scalar-yaml", timeout=1800, unwindset=U16, tier="quick", bounds="scalar-yaml build: pure scalar kernel, same harness"),
+        H("c16_block_end_deep_n48_s0_sse2", timeout=2700, unwindset=U16, tier="quick", bounds="48 bytes, min_indent 15..=24, SSE2"),
+        H("c16_block_end_deep_n48_s1_avx2", timeout=2700, unwindset=U16, tier="thorough", bounds="48 bytes, min_indent 15..=24, AVX2"),
         H("c16_witness_must_fail", kind="witness", tier="thorough", timeout=900, unwindset=U16),
     ],
 )
